@@ -473,6 +473,8 @@ class Evaluator:
                 try:
                     if idx in base:
                         return base[idx]
+                    if getattr(base, "default_factory", None) is not None:
+                        return base[idx]  # collections.defaultdict: a missing key is created by the factory
                 except TypeError:
                     raise Undecided("unhashable key")
                 raise Raised(f"KeyError({idx!r})")
@@ -752,6 +754,8 @@ class Evaluator:
             return a + b if isinstance(op, ast.Add) else (Lin.of(a) - b)
         if isinstance(op, ast.Add) and isinstance(a, (list, tuple, str)) and type(a) is type(b):
             return a + b
+        if isinstance(a, (set, frozenset)) and isinstance(b, (set, frozenset)) and isinstance(op, (ast.Sub, ast.BitOr, ast.BitAnd, ast.BitXor)):
+            return {ast.Sub: lambda: a - b, ast.BitOr: lambda: a | b, ast.BitAnd: lambda: a & b, ast.BitXor: lambda: a ^ b}[type(op)]()
         if isinstance(op, ast.Add) and isinstance(a, list) and isinstance(b, list):
             return list(a) + list(b)  # a kind-qualified list joined with a plain one: the qualifier is dropped
         num = lambda x: isinstance(x, int) and not isinstance(x, bool)  # noqa: E731
@@ -864,6 +868,9 @@ class Evaluator:
                 return a >= b
         if isinstance(a, tuple) and isinstance(b, tuple):
             return {ast.Lt: a < b, ast.LtE: a <= b, ast.Gt: a > b, ast.GtE: a >= b}[type(op)]
+        if isinstance(op, (ast.Lt, ast.LtE, ast.Gt, ast.GtE)) and (a is None or b is None) and (
+                a is None or isinstance(a, (int, str, list, tuple))) and (b is None or isinstance(b, (int, str, list, tuple))):
+            raise Raised("TypeError(ordering comparison with None)")
         raise Undecided(f"comparison of {a!r} and {b!r}")
 
     def call(self, n: ast.Call, env: Dict[str, Any]) -> Any:
@@ -1287,6 +1294,18 @@ def _sum(xs: Any, start: Any = 0) -> Any:
     return acc
 
 
+def _prod(xs: Any, start: Any = 1) -> Any:
+    acc = start
+    for x in xs:
+        if isinstance(x, bool) or not isinstance(x, int) or not isinstance(acc, int):
+            raise Undecided("math.prod of abstract values")
+        k = kind_of(x) if kind_of(acc) is None and acc == 1 else None
+        acc = acc * x
+        if k is not None:
+            acc = KInt(acc, k)
+    return acc
+
+
 def _base_repr(v: Any, base: Any) -> str:
     """numpy.base_repr for non-negative integers (digits 0-9 then upper-case letters)"""
     if not (isinstance(v, int) and isinstance(base, int)) or isinstance(v, bool) or not 2 <= base <= 36:
@@ -1348,6 +1367,10 @@ BUILTINS: Dict[str, Callable[..., Any]] = {
     "abs": abs,
     "float": lambda x: float(x) if isinstance(x, (int, float)) and not isinstance(x, bool) else (_ for _ in ()).throw(Undecided("float()")),
     "math.exp": lambda x: __import__("math").exp(x) if isinstance(x, (int, float)) else (_ for _ in ()).throw(Undecided("exp")),
+    "math.prod": lambda xs, start=1: _prod(xs, start),
+    "prod": lambda xs, start=1: _prod(xs, start),
+    "defaultdict": lambda *a, **k: __import__("collections").defaultdict(*a, **k),
+    "collections.defaultdict": lambda *a, **k: __import__("collections").defaultdict(*a, **k),
     "print": lambda *a, **k: None,
     "deque": lambda *a: _Deque(*a),
     "collections.deque": lambda *a: _Deque(*a),
